@@ -24,6 +24,8 @@ McKindsEmitQuick == {<<k1, "solid">> : k1 \in Kinds} \cup {<<"solid", "fluid">>,
 McKindsQuick == {<<"solid", "solid">>, <<"solid", "fluid">>, <<"inert", "solid">>, <<"custom", "solid">>, <<"fluid", "inert">>, <<"void", "solid">>}
 \* <<Tin1, Thot1, Tin2, Thot2>>
 McTempsAll3  == {<<a, b, c, d>> : a \in 1..2, b \in 1..3, c \in 1..2, d \in 2..3}
+McTempsHalf3 == {<<a, b, 1, d>> : a \in 1..2, b \in 1..3, d \in 2..3}
+McTempsEmit4b == {<<1, 3, 1, 4>>, <<3, 2, 4, 1>>}
 McTempsEmit  == {<<1, 2, 1, 3>>, <<2, 1, 1, 2>>, <<3, 3, 2, 2>>}
 McTempsEmit4 == {<<1, 3, 1, 4>>, <<2, 1, 1, 2>>, <<4, 4, 2, 2>>, <<3, 2, 4, 1>>}
 McTempsOne   == {<<1, 2, 1, 3>>}
